@@ -390,7 +390,7 @@ PROPS = {
         "not_covered": [
             "the std meaning of str::split / trim / filter / splitn and HashMap::insert (assumed through stand-ins); that the map is handed to the handler unchanged (struct literal at the end of read_http_request)",
             "client-side interpretation of attribute values (Expires date syntax, Domain matching)",
-            "Cookie::new / with_domain / with_path panics on invalid input",
+            "that Cookie::new / with_domain / with_path panic on non-ASCII or empty-name input (the contracts state the accepted inputs as preconditions; the panics themselves are the documented behaviour)",
         ],
     },
     "C17": {
